@@ -114,6 +114,13 @@ theorem scaled_noarg_not_pure :
   revert this
   decide
 
+/- TARGET (not proved, time): `ScaledSynced` holds in every state reached by a history without `setTimegrid` on a scaled
+   wrapper:  `(∀ c ∈ calls, ∀ a g, c = .setTimegrid a g → ∀ p b, env.asset a ≠ .scaled p b) →
+              ∀ a, ScaledSynced env (run true env (init env) calls) a`
+   (invariant: base pointer = wrapper pointer; kept by `setupAsset` on a scaled asset in all three branches, untouched by the
+   other calls).  Not covered by the model at all: `setup_split_optim_problem` restoring the full grid for top-level assets
+   only (finding H3), which breaks the same invariant in the real code. -/
+
 /-! ### interval data: the normal form evaluates like the raw form -/
 
 theorem normalise_intervals (d : IntervalDict) : (normalise d).intervals = d.intervals := by
@@ -123,9 +130,10 @@ theorem normalise_intervals (d : IntervalDict) : (normalise d).intervals = d.int
   | none =>
     by_cases hall : (EAO.implicitEnds d.starts).all Option.isSome = true
     · have e1 := map_some_getD _ hall
-      have e2 := map_id_match (EAO.implicitEnds d.starts)
       simp only [IntervalDict.intervals, EAO.mkIntervals, h, hall, if_true]
-      rw [e1, e2]
+      rw [e1]
+      congr 3
+      exact (List.map_id'' (fun e => by cases e <;> rfl) _).symm
     · simp [hall]
 
 /-- `values_to_grid` gives the same array for the dictionary it used to leave behind in the caller's hands
